@@ -576,12 +576,37 @@ def sym_pow(a, b):
     return ctx().pow(to_real(a), to_real(b))
 
 
+def sym_declare(type, num=1):
+    """compyle.api.declare for symbolic runs: plain python containers (numpy
+    float arrays cannot hold proxies)."""
+    def one():
+        t = type.strip()
+        if t.startswith("matrix"):
+            import ast as _ast
+            shape = _ast.literal_eval(t[6:].strip())
+            if isinstance(shape, int):
+                shape = (shape,)
+            shape = tuple(shape)
+            if len(shape) == 1:
+                return [0.0] * shape[0]
+            if len(shape) == 2:
+                return [[0.0] * shape[1] for _ in range(shape[0])]
+            raise NotEncodable("declare(%r)" % type)
+        if t in ("int", "long", "unsigned int", "size_t", "uint"):
+            return 0
+        return 0.0
+    if num == 1:
+        return one()
+    return tuple(one() for _ in range(num))
+
+
 MATH_TABLE = dict(
     sqrt=sym_sqrt, exp=sym_exp, log=sym_log, pow=sym_pow, fabs=sym_fabs,
     sin=sym_sin, cos=sym_cos, tan=sym_tan, atan2=sym_atan2, atan=sym_atan,
     acos=sym_acos, asin=sym_asin, tanh=sym_tanh, floor=sym_floor,
     ceil=sym_ceil, erf=sym_erf,
     abs=sym_abs, max=sym_max, min=sym_min, float=sym_float, int=sym_int,
+    declare=sym_declare,
 )
 
 
@@ -673,6 +698,8 @@ class Ctx(object):
         self.pow_memo = {}
         self.axioms = []
         self.notes = []
+        self.root_candidates = []
+        self.roots_used = 0
 
     # -- solver helpers ----------------------------------------------------
     def _check(self, *extra, timeout_ms=None):
@@ -814,6 +841,14 @@ class Ctx(object):
         key = t.get_id()
         if key in self.sqrt_memo:
             return SReal(self.sqrt_memo[key][1])
+        for cand in self.root_candidates:
+            # registered non-negative root: justified by a solver query
+            r, _ = solve(list(self.pc) + [t != cand * cand], 3000)
+            self.stats.feas_checks += 1
+            if r == "unsat":
+                self.sqrt_memo[key] = (t, cand)
+                self.roots_used += 1
+                return SReal(cand)
         if self.branch(t < 0):
             raise ValueError("math domain error (symbolic sqrt)")
         y = self.fresh_real("sqrt")
@@ -834,7 +869,16 @@ class Ctx(object):
         return SReal(self.exp_memo[key][1])
 
     def pow(self, a, b):
-        y = uf("pow", 2)(simp(a), simp(b))
+        a, b = simp(a), simp(b)
+        y = uf("pow", 2)(a, b)
+        key = y.get_id()
+        if key not in self.pow_memo:
+            # axioms of real pow that hold for every exponent
+            self.pow_memo[key] = y
+            self.add(z3.Implies(a == 1, y == 1))
+            self.add(z3.Implies(a > 0, y > 0))
+            self.add(z3.Implies(b == 0, y == 1))
+            self.add(z3.Implies(b == 1, y == a))
         return SReal(y)
 
     # -- claims ----------------------------------------------------------------
